@@ -1,128 +1,79 @@
-(** C05: lexer and parser composed, from the TEXT of a stream selector to its matchers.
-    The text is written token by token -- `{`, label, operator, "value", `,` ... `}` -- each token followed by any non-empty
-    white space; label names may be keywords that are not function names (by, on, json, drop, ...: D29), values any printable
-    bytes (quote and backslash escaped).  The lexer model turns the text into tokens (LexerP), the driver attaches the
-    library results to the string tokens, the parser model returns exactly the matchers (ParserP). *)
-From LogQLV Require Import Base.Bytes Base.TimeFmt Model.Tables Model.Syntax Model.Parser Model.Lexer Proofs.ParserP Proofs.LexerP.
+(** C05: lexer and parser composed, from the TEXT of a query to its tree.
+    Generic part: a list of parser tokens each of which can be written in the lexer fragment of LexerP (identifiers, keywords,
+    function keywords followed by an opening parenthesis, operators / punctuation, interpreted strings), written one after the
+    other with any non-empty white space after each, lexes back to exactly those tokens (the driver attaches the library
+    results to string tokens: [tok_of]).
+    Instances: the printed tokens of a stream selector (label names may be keywords that are not function names: D29) and of a
+    pipeline over the stage fragment of PipelineP are such lists; composing with the parser theorems gives
+    text -> matchers (selector) and text -> ELog selector stages (whole log queries through parse_tokens). *)
+From LogQLV Require Import Base.Bytes Base.TimeFmt Base.FloatX Model.Tables Model.Syntax Model.Parser Model.Lexer Proofs.ParserP Proofs.PipelineP Proofs.QueryP Proofs.LexerP.
 From Coq Require Import Lia.
 
-(** facts about the keyword table of the tree under verification (decided by computation on Model/Tables.v, regenerated from
-    /repo on every run) *)
-Lemma lookup_kw_in k : forall tbl t, lookup_kw k tbl = Some t -> In (k, t) tbl.
-Proof.
-  induction tbl as [|[w t'] r IH]; intros t H; [discriminate|]. cbn in H.
-  destruct (bytes_eqb w k) eqn:E; [apply bytes_eqb_eq in E; subst; injection H as <-; left; reflexivity|right; apply IH; exact H].
-Qed.
-
+(** facts about the keyword table of the tree under verification (decided by computation on Model/Tables.v, which is
+    regenerated from /repo on every run) *)
 Lemma kw_never_string : forallb (fun kv => negb (ttype_eqb (snd kv) TString)) keyword_table = true.
+Proof. vm_compute. reflexivity. Qed.
+Lemma kw_never_ident : forallb (fun kv => negb (ttype_eqb (snd kv) TIdent)) keyword_table = true.
 Proof. vm_compute. reflexivity. Qed.
 Lemma kw_closebrace_not_label : forallb (fun kv => negb (ttype_eqb (snd kv) TCloseBrace) || negb (is_valid_label (fst kv))) keyword_table = true.
 Proof. vm_compute. reflexivity. Qed.
 
+(** function keywords are closed by what follows them *)
+Definition is_fun_ltok (t : ltok) : bool := match t with LFun _ _ => true | _ => false end.
+Fixpoint funs_ok (l : list ltok) : Prop :=
+  match l with
+  | [] => True
+  | t :: r => (if is_fun_ltok t then match r with t2 :: _ => t2 = open_paren | [] => False end else True) /\ funs_ok r
+  end.
+Lemma fun_ok_funs l : funs_ok (map fst l) -> fun_ok l.
+Proof.
+  induction l as [|[t ws] r IH]; intro H; [exact I|]. cbn [map fst funs_ok] in H. destruct H as [H1 H2]. specialize (IH H2).
+  destruct t; cbn [fun_ok is_fun_ltok] in *; try exact IH. split; [|exact IH]. destruct r as [|[t2 ws2] r2]; [exact H1|exact H1].
+Qed.
+
+(** [closed a]: every function keyword in [a] is followed, inside [a], by the opening parenthesis *)
+Definition closed (a : list ltok) : Prop := forall b, funs_ok b -> funs_ok (a ++ b).
+Lemma closed_nil : closed [].
+Proof. intros b H. exact H. Qed.
+Lemma closed_app a b : closed a -> closed b -> closed (a ++ b).
+Proof. intros Ha Hb c Hc. rewrite <- app_assoc. apply Ha, Hb, Hc. Qed.
+Lemma closed_one t : is_fun_ltok t = false -> closed [t].
+Proof. intros Ht b Hb. cbn [app funs_ok]. rewrite Ht. split; [exact I|exact Hb]. Qed.
+Lemma closed_cons t a : is_fun_ltok t = false -> closed a -> closed (t :: a).
+Proof. intros Ht Ha. change (t :: a) with ([t] ++ a). apply closed_app; [apply closed_one; exact Ht|exact Ha]. Qed.
+Lemma closed_fun ty w a : closed a -> closed (LFun ty w :: open_paren :: a).
+Proof. intros Ha b Hb. cbn [app funs_ok is_fun_ltok]. split; [reflexivity|]. split; [exact I|]. apply Ha, Hb. Qed.
+Lemma closed_funs_ok a : closed a -> funs_ok a.
+Proof. intro H. rewrite <- (app_nil_r a). apply H. exact I. Qed.
+
 Section LexParse.
   Variable anch : bytes -> bool.
   Variable re_names : bytes -> option (list bytes).
+  Notation str_tok := (str_tok anch re_names).
 
   (** what the driver makes of a lexed token: a string token carries the results of compiling its text *)
   Definition tok_of (p : ttype * bytes) : token :=
-    if ttype_eqb (fst p) TString then str_tok anch re_names (snd p) else plain (fst p) (snd p).
+    if ttype_eqb (fst p) TString then str_tok (snd p) else plain (fst p) (snd p).
 
-  (** the token type the lexer gives a label name *)
-  Definition kw_cls (l : bytes) : ttype := match lookup_kw l keyword_table with Some t => t | None => TIdent end.
+  (** how a parser token is written *)
+  Definition ltok_of (t : token) : ltok :=
+    if ttype_eqb (ty t) TString then LStr (text t)
+    else if ttype_eqb (ty t) TIdent then LId (text t)
+    else if is_valid_label (text t) then (if is_function (ty t) then LFun (ty t) (text t) else LWord (ty t) (text t))
+    else LPunct (ty t) (text t).
 
-  Definition label_ltok (l : bytes) : ltok := match lookup_kw l keyword_table with Some t => LWord t l | None => LId l end.
-  Definition punct_ltok (t : ttype) : ltok := LPunct t (spelling t).
-  Definition matcher_ltoks (m : matcher) : list ltok := [label_ltok (m_label m); punct_ltok (mop_tok (m_op m)); LStr (m_value m)].
-  Fixpoint matchers_ltoks (ms : list matcher) : list ltok :=
-    match ms with
-    | [] => []
-    | [m] => matcher_ltoks m
-    | m :: t => matcher_ltoks m ++ punct_ltok TComma :: matchers_ltoks t
-    end.
-  Definition selector_ltoks (ms : list matcher) : list ltok := punct_ltok TOpenBrace :: matchers_ltoks ms ++ [punct_ltok TCloseBrace].
+  (** ... and when it can be: its writing is in the lexer fragment and it carries nothing but what the driver would attach *)
+  Definition lexable (t : token) : Prop := wf_ltok (ltok_of t) /\ tok_of (ty t, text t) = t.
 
-  (** a matcher as it can be written in the lexer fragment *)
-  Definition text_matcher (m : matcher) : Prop :=
-    wf_matcher anch m /\ is_valid_label (m_label m) = true /\
-    match lookup_kw (m_label m) keyword_table with Some t => is_function t = false | None => True end /\
-    forallb printable (m_value m) = true.
-
-  Lemma kw_cls_not_string l : ttype_eqb (kw_cls l) TString = false.
+  Lemma tok_of_ltok t : lexable t -> tok_of (lres (ltok_of t)) = t.
   Proof.
-    unfold kw_cls. destruct (lookup_kw l keyword_table) as [t|] eqn:E; [|reflexivity].
-    apply lookup_kw_in in E. pose proof kw_never_string as H. rewrite forallb_forall in H. specialize (H _ E). cbn in H.
-    destruct (ttype_eqb t TString); [discriminate|reflexivity].
-  Qed.
-
-  Lemma kw_cls_not_closebrace l : is_valid_label l = true -> ttype_eqb (kw_cls l) TCloseBrace = false.
-  Proof.
-    intro Hv. unfold kw_cls. destruct (lookup_kw l keyword_table) as [t|] eqn:E; [|reflexivity].
-    apply lookup_kw_in in E. pose proof kw_closebrace_not_label as H. rewrite forallb_forall in H. specialize (H _ E). cbn in H.
-    rewrite Hv in H. cbn in H. rewrite orb_false_r in H. destruct (ttype_eqb t TCloseBrace); [discriminate|reflexivity].
-  Qed.
-
-  Lemma mop_tok_not_string o : ttype_eqb (mop_tok o) TString = false.
-  Proof. destruct o; reflexivity. Qed.
-
-  Lemma tok_of_label l : tok_of (lres (label_ltok l)) = plain (kw_cls l) l.
-  Proof.
-    pose proof (kw_cls_not_string l) as H. unfold label_ltok, kw_cls in *.
-    destruct (lookup_kw l keyword_table) as [t|]; cbn [lres]; unfold tok_of; cbn [fst snd]; [rewrite H|]; reflexivity.
-  Qed.
-
-  Lemma tok_of_matcher m : map (fun t => tok_of (lres t)) (matcher_ltoks m) = print_matcher anch re_names kw_cls m.
-  Proof.
-    unfold matcher_ltoks, print_matcher. cbn [map]. rewrite tok_of_label. f_equal. f_equal.
-    cbn [punct_ltok lres]. unfold tok_of. cbn [fst snd]. rewrite mop_tok_not_string. reflexivity.
-  Qed.
-
-  Lemma tok_of_matchers ms : map (fun t => tok_of (lres t)) (matchers_ltoks ms) = print_matchers anch re_names kw_cls ms.
-  Proof.
-    induction ms as [|m t IH]; [reflexivity|]. destruct t as [|m2 t'].
-    - cbn [matchers_ltoks print_matchers]. apply tok_of_matcher.
-    - change (matchers_ltoks (m :: m2 :: t')) with (matcher_ltoks m ++ punct_ltok TComma :: matchers_ltoks (m2 :: t')).
-      change (print_matchers anch re_names kw_cls (m :: m2 :: t')) with
-        (print_matcher anch re_names kw_cls m ++ punct TComma :: print_matchers anch re_names kw_cls (m2 :: t')).
-      rewrite map_app. cbn [map]. rewrite tok_of_matcher, IH. reflexivity.
-  Qed.
-
-  Lemma tok_of_selector ms : map (fun t => tok_of (lres t)) (selector_ltoks ms) = print_selector anch re_names kw_cls ms.
-  Proof. unfold selector_ltoks, print_selector. cbn [map]. rewrite map_app, tok_of_matchers. reflexivity. Qed.
-
-  (** the tokens are in the lexer fragment *)
-  Lemma wf_punct_ltok t : In t [TOpenBrace; TCloseBrace; TComma; TEq; TNotEq; TRe; TNotRe] -> wf_ltok (punct_ltok t).
-  Proof.
-    intro H. cbn in H. repeat (destruct H as [<-|H]; [vm_compute; split; reflexivity|]). contradiction.
-  Qed.
-
-  Lemma wf_label_ltok l : is_valid_label l = true ->
-    match lookup_kw l keyword_table with Some t => is_function t = false | None => True end -> wf_ltok (label_ltok l).
-  Proof.
-    intros Hv Hk. unfold label_ltok. destruct (lookup_kw l keyword_table) as [t|] eqn:E; cbn [wf_ltok].
-    - repeat split; assumption.
-    - split; assumption.
-  Qed.
-
-  Lemma wf_matcher_ltoks m : text_matcher m -> Forall wf_ltok (matcher_ltoks m).
-  Proof.
-    intros [Hw [Hv [Hk Hp]]]. unfold matcher_ltoks. repeat constructor.
-    - apply wf_label_ltok; assumption.
-    - apply wf_punct_ltok. destruct (m_op m); cbn; tauto.
-    - exact Hp.
-  Qed.
-
-  Lemma wf_matchers_ltoks ms : Forall text_matcher ms -> Forall wf_ltok (matchers_ltoks ms).
-  Proof.
-    induction ms as [|m t IH]; intro H; [constructor|]. inversion H as [|? ? Hm Ht]; subst. destruct t as [|m2 t'].
-    - apply wf_matcher_ltoks; exact Hm.
-    - change (matchers_ltoks (m :: m2 :: t')) with (matcher_ltoks m ++ punct_ltok TComma :: matchers_ltoks (m2 :: t')).
-      apply Forall_app. split; [apply wf_matcher_ltoks; exact Hm|]. constructor; [apply wf_punct_ltok; cbn; tauto|apply IH; exact Ht].
-  Qed.
-
-  Lemma wf_selector_ltoks ms : Forall text_matcher ms -> Forall wf_ltok (selector_ltoks ms).
-  Proof.
-    intro H. unfold selector_ltoks. constructor; [apply wf_punct_ltok; cbn; tauto|].
-    apply Forall_app. split; [apply wf_matchers_ltoks; exact H|]. constructor; [apply wf_punct_ltok; cbn; tauto|constructor].
+    intros [_ H]. unfold ltok_of. unfold tok_of in H. cbn [fst snd] in H.
+    destruct (ttype_eqb (ty t) TString) eqn:ES.
+    - cbn [lres]. unfold tok_of. cbn [fst snd]. change (ttype_eqb TString TString) with true. exact H.
+    - destruct (ttype_eqb (ty t) TIdent) eqn:EI.
+      + cbn [lres]. unfold tok_of. cbn [fst snd]. change (ttype_eqb TIdent TString) with false. cbv iota.
+        apply ttype_eqb_ident in EI. rewrite <- EI. exact H.
+      + destruct (is_valid_label (text t)); [destruct (is_function (ty t))|]; cbn [lres]; unfold tok_of; cbn [fst snd]; rewrite ES; exact H.
   Qed.
 
   Lemma wf_items l toks : map fst l = toks -> Forall wf_ltok toks -> Forall (fun x => all_space (snd x)) l -> Forall wf_item l.
@@ -131,21 +82,237 @@ Section LexParse.
     cbn in E. subst toks. inversion Hw; subst. inversion Hs; subst. constructor; [split; assumption|]. eapply IH; [reflexivity|assumption|assumption].
   Qed.
 
-  (** from text to matchers *)
+  (** the generic statement: lexable tokens, written with any white space after each, lex back to themselves *)
+  Theorem lex_tokens_lemma (ts : list token) (l : list (ltok * bytes)) :
+    map fst l = map ltok_of ts -> Forall (fun x => all_space (snd x)) l -> Forall lexable ts -> funs_ok (map ltok_of ts) ->
+    exists toks, lex (layout l) = LexOk toks /\ map tok_of toks = ts.
+  Proof.
+    intros El Hs Hl Hf.
+    assert (Hw : Forall wf_ltok (map ltok_of ts)).
+    { apply Forall_map. eapply Forall_impl; [|exact Hl]. intros t [H _]. exact H. }
+    pose proof (wf_items l _ El Hw Hs) as Hwf.
+    exists (map (fun x => lres (fst x)) l). split.
+    - apply lex_layout_lemma; [exact Hwf|]. apply fun_ok_funs. rewrite El. exact Hf.
+    - rewrite map_map. rewrite <- (map_map fst (fun t => tok_of (lres t))). rewrite El. rewrite map_map.
+      clear El Hw Hwf Hf Hs. induction ts as [|t r IH]; [reflexivity|]. inversion Hl; subst. cbn [map]. rewrite tok_of_ltok by assumption. f_equal. apply IH. assumption.
+  Qed.
+
+  (** * building blocks *)
+  Ltac punct_lex := split; [vm_compute; repeat split; reflexivity|reflexivity].
+  Ltac fl := repeat (apply Forall_cons || apply Forall_nil).
+
+  Lemma lexable_str v : forallb printable v = true -> lexable (str_tok v).
+  Proof. intro H. split; [exact H|reflexivity]. Qed.
+  Lemma ltok_str v : ltok_of (str_tok v) = LStr v.
+  Proof. reflexivity. Qed.
+
+  (** a name that lexes as an identifier *)
+  Definition text_name (l : bytes) : Prop := is_valid_label l = true /\ lookup_kw l keyword_table = None.
+  Lemma lexable_name l : text_name l -> lexable (plain TIdent l).
+  Proof. intros [Hv Hk]. split; [split; assumption|reflexivity]. Qed.
+  Lemma ltok_name l : ltok_of (plain TIdent l) = LId l.
+  Proof. reflexivity. Qed.
+
+  (** the token type the lexer gives a label name *)
+  Definition kw_cls (l : bytes) : ttype := match lookup_kw l keyword_table with Some t => t | None => TIdent end.
+  (** a label name of a selector: a valid name; when it is a keyword, not a function keyword *)
+  Definition text_label (l : bytes) : Prop :=
+    is_valid_label l = true /\ match lookup_kw l keyword_table with Some t => is_function t = false | None => True end.
+
+  Lemma kw_cls_not_string l : ttype_eqb (kw_cls l) TString = false.
+  Proof.
+    unfold kw_cls. destruct (lookup_kw l keyword_table) as [t|] eqn:E; [|reflexivity].
+    apply lookup_in in E. pose proof kw_never_string as H. rewrite forallb_forall in H. specialize (H _ E). cbn in H.
+    destruct (ttype_eqb t TString); [discriminate|reflexivity].
+  Qed.
+  Lemma kw_cls_not_closebrace l : is_valid_label l = true -> ttype_eqb (kw_cls l) TCloseBrace = false.
+  Proof.
+    intro Hv. unfold kw_cls. destruct (lookup_kw l keyword_table) as [t|] eqn:E; [|reflexivity].
+    apply lookup_in in E. pose proof kw_closebrace_not_label as H. rewrite forallb_forall in H. specialize (H _ E). cbn in H.
+    rewrite Hv in H. cbn in H. rewrite orb_false_r in H. destruct (ttype_eqb t TCloseBrace); [discriminate|reflexivity].
+  Qed.
+
+  Lemma label_tok l : text_label l -> lexable (plain (kw_cls l) l) /\ is_fun_ltok (ltok_of (plain (kw_cls l) l)) = false.
+  Proof.
+    intros [Hv Hk]. pose proof (kw_cls_not_string l) as HS. unfold lexable, ltok_of, tok_of. cbn [ty text fst snd plain]. rewrite HS.
+    unfold kw_cls in *. destruct (lookup_kw l keyword_table) as [t|] eqn:E.
+    - assert (HI : ttype_eqb t TIdent = false).
+      { pose proof (lookup_in _ _ _ E) as Hin. pose proof kw_never_ident as H. rewrite forallb_forall in H. specialize (H _ Hin). cbn in H.
+        destruct (ttype_eqb t TIdent); [discriminate|reflexivity]. }
+      rewrite HI, Hv, Hk. cbn [wf_ltok is_fun_ltok]. repeat split; assumption.
+    - change (ttype_eqb TIdent TIdent) with true. cbn [wf_ltok is_fun_ltok]. repeat split; assumption.
+  Qed.
+
+  (** * stream selectors *)
+  Definition text_matcher (m : matcher) : Prop :=
+    wf_matcher anch m /\ text_label (m_label m) /\ forallb printable (m_value m) = true.
+
+  Lemma mop_lex o : lexable (punct (mop_tok o)) /\ is_fun_ltok (ltok_of (punct (mop_tok o))) = false.
+  Proof. destruct o; split; try punct_lex; reflexivity. Qed.
+
+  Lemma matcher_toks m : text_matcher m ->
+    Forall lexable (print_matcher anch re_names kw_cls m) /\ closed (map ltok_of (print_matcher anch re_names kw_cls m)).
+  Proof.
+    intros [_ [Hl Hp]]. destruct (label_tok _ Hl) as [L1 L2]. destruct (mop_lex (m_op m)) as [O1 O2]. unfold print_matcher. split.
+    - fl; [exact L1|exact O1|apply lexable_str; exact Hp].
+    - cbn [map]. apply closed_cons; [exact L2|]. apply closed_cons; [exact O2|]. apply closed_one. reflexivity.
+  Qed.
+
+  Lemma comma_lex : lexable (punct TComma). Proof. punct_lex. Qed.
+
+  Lemma matchers_toks ms : Forall text_matcher ms ->
+    Forall lexable (print_matchers anch re_names kw_cls ms) /\ closed (map ltok_of (print_matchers anch re_names kw_cls ms)).
+  Proof.
+    induction ms as [|m t IH]; intro H; [split; [constructor|apply closed_nil]|]. inversion H as [|? ? Hm Ht]; subst. destruct t as [|m2 t'].
+    - cbn [print_matchers]. apply matcher_toks; exact Hm.
+    - change (print_matchers anch re_names kw_cls (m :: m2 :: t')) with
+        (print_matcher anch re_names kw_cls m ++ punct TComma :: print_matchers anch re_names kw_cls (m2 :: t')).
+      destruct (matcher_toks m Hm) as [A1 A2]. destruct (IH Ht) as [B1 B2]. split.
+      + apply Forall_app. split; [exact A1|]. constructor; [exact comma_lex|exact B1].
+      + rewrite map_app. apply closed_app; [exact A2|]. cbn [map]. apply closed_cons; [reflexivity|exact B2].
+  Qed.
+
+  Lemma selector_toks ms : Forall text_matcher ms ->
+    Forall lexable (print_selector anch re_names kw_cls ms) /\ closed (map ltok_of (print_selector anch re_names kw_cls ms)).
+  Proof.
+    intro H. destruct (matchers_toks ms H) as [A1 A2]. unfold print_selector. split.
+    - constructor; [punct_lex|]. apply Forall_app. split; [exact A1|]. fl. punct_lex.
+    - cbn [map]. apply closed_cons; [reflexivity|]. rewrite map_app. apply closed_app; [exact A2|]. apply closed_one. reflexivity.
+  Qed.
+
+  Lemma text_matchers_wf ms : Forall text_matcher ms ->
+    Forall (wf_lmatcher anch kw_cls) ms /\ Forall (fun m => ttype_eqb (kw_cls (m_label m)) TCloseBrace = false) ms.
+  Proof.
+    intro H. split; (eapply Forall_impl; [|exact H]); intros m [Hw [[Hv _] _]].
+    - split; [exact Hw|]. unfold lbl_ok. rewrite kw_cls_not_string, Hv. cbn. apply orb_true_r.
+    - apply kw_cls_not_closebrace. exact Hv.
+  Qed.
+
+  (** from the text of a selector to its matchers *)
   Theorem selector_text_lemma (ms : list matcher) (l : list (ltok * bytes)) (p r : list token) (fuel : nat) :
-    map fst l = selector_ltoks ms -> Forall (fun x => all_space (snd x)) l -> Forall text_matcher ms -> (length ms < fuel)%nat ->
+    map fst l = map ltok_of (print_selector anch re_names kw_cls ms) -> Forall (fun x => all_space (snd x)) l ->
+    Forall text_matcher ms -> (length ms < fuel)%nat ->
     exists toks, lex (layout l) = LexOk toks /\
       parse_selector fuel {| prev := p; rest := map tok_of toks ++ r |} =
         POk ms {| prev := rev (print_selector anch re_names (fun _ => TIdent) ms) ++ p; rest := r |}.
   Proof.
-    intros El Hs Hm Hf.
-    pose proof (wf_items l _ El (wf_selector_ltoks ms Hm) Hs) as Hwf.
-    exists (map (fun x => lres (fst x)) l). split; [apply lex_layout_lemma; exact Hwf|].
-    rewrite map_map. rewrite <- (map_map fst (fun t => tok_of (lres t))). rewrite El, tok_of_selector.
-    apply parse_selector_print.
-    - rewrite Forall_forall in *. intros m Hin. destruct (Hm m Hin) as [Hw [Hv _]]. split; [exact Hw|].
-      unfold lbl_ok. rewrite kw_cls_not_string, Hv. cbn. apply orb_true_r.
-    - exact Hf.
-    - rewrite Forall_forall in *. intros m Hin. destruct (Hm m Hin) as [_ [Hv _]]. apply kw_cls_not_closebrace. exact Hv.
+    intros El Hs Hm Hf. destruct (selector_toks ms Hm) as [A1 A2].
+    destruct (lex_tokens_lemma _ l El Hs A1 (closed_funs_ok _ A2)) as [toks [HL HT]].
+    exists toks. split; [exact HL|]. rewrite HT. destruct (text_matchers_wf ms Hm) as [W1 W2].
+    apply parse_selector_print; assumption.
+  Qed.
+
+  (** * pipelines over the stage fragment *)
+  Definition text_names (ls : list bytes) : Prop := Forall text_name ls.
+  Definition text_pairs_str (ts : list (bytes * bytes)) : Prop := Forall (fun p => text_name (fst p) /\ forallb printable (snd p) = true) ts.
+  Definition text_pairs_name (rs : list (bytes * bytes)) : Prop := Forall (fun p => text_name (fst p) /\ text_name (snd p)) rs.
+
+  Definition text_stage (s : stage) : Prop :=
+    match s with
+    | SLine _ v _ | SPattern v | SLineFormat v => forallb printable v = true
+    | SUnpack | SDecolorize => True
+    | SDrop ls _ | SKeep ls _ | SDistinct ls | SJson ls _ | SLogfmt ls _ => text_names ls
+    | SLabelFormat rs ts => text_pairs_name rs /\ text_pairs_str ts
+    | _ => False
+    end.
+
+  Lemma names_toks ls : text_names ls -> Forall lexable (print_names ls) /\ closed (map ltok_of (print_names ls)).
+  Proof.
+    induction ls as [|l t IH]; intro H; [split; [constructor|apply closed_nil]|]. inversion H as [|? ? Hl Ht]; subst. destruct t as [|l2 t'].
+    - cbn [print_names map]. split; [fl; apply lexable_name; exact Hl|apply closed_one; reflexivity].
+    - change (print_names (l :: l2 :: t')) with (plain TIdent l :: punct TComma :: print_names (l2 :: t')). destruct (IH Ht) as [B1 B2]. split.
+      + constructor; [apply lexable_name; exact Hl|]. constructor; [exact comma_lex|exact B1].
+      + cbn [map]. apply closed_cons; [reflexivity|]. apply closed_cons; [reflexivity|exact B2].
+  Qed.
+
+  Lemma tmpls_toks ts : text_pairs_str ts -> Forall lexable (print_tmpls anch re_names ts) /\ closed (map ltok_of (print_tmpls anch re_names ts)).
+  Proof.
+    induction ts as [|[dst tm] t IH]; intro H; [split; [constructor|apply closed_nil]|]. inversion H as [|? ? [Hd Hp] Ht]; subst. cbn [fst snd] in *.
+    destruct (IH Ht) as [B1 B2]. cbn [print_tmpls]. destruct t as [|x t'].
+    - split; [fl; [apply lexable_name; exact Hd|punct_lex|apply lexable_str; exact Hp]|].
+      cbn [map]. apply closed_cons; [reflexivity|]. apply closed_cons; [reflexivity|]. apply closed_one. reflexivity.
+    - split.
+      + constructor; [apply lexable_name; exact Hd|]. constructor; [punct_lex|]. constructor; [apply lexable_str; exact Hp|]. constructor; [exact comma_lex|exact B1].
+      + cbn [map]. apply closed_cons; [reflexivity|]. apply closed_cons; [reflexivity|]. apply closed_cons; [reflexivity|]. apply closed_cons; [reflexivity|exact B2].
+  Qed.
+
+  Lemma lf_toks rs ts : text_pairs_name rs -> text_pairs_str ts ->
+    Forall lexable (print_lf anch re_names rs ts) /\ closed (map ltok_of (print_lf anch re_names rs ts)).
+  Proof.
+    intros Hr Ht. induction rs as [|[src dst] r IH]; [cbn [print_lf]; apply tmpls_toks; exact Ht|].
+    inversion Hr as [|? ? [Hs Hd] Hr']; subst. cbn [fst snd] in *. destruct (IH Hr') as [B1 B2]. cbn [print_lf].
+    assert (Hhead : Forall lexable [plain TIdent dst; punct TEq; plain TIdent src]).
+    { fl; [apply lexable_name; exact Hd|punct_lex|apply lexable_name; exact Hs]. }
+    destruct r as [|x r']; [destruct ts as [|y ts']|].
+    - split; [exact Hhead|]. cbn [map]. apply closed_cons; [reflexivity|]. apply closed_cons; [reflexivity|]. apply closed_one. reflexivity.
+    - split.
+      + apply (Forall_app _ [_; _; _] _). split; [exact Hhead|]. constructor; [exact comma_lex|exact B1].
+      + cbn [map]. apply closed_cons; [reflexivity|]. apply closed_cons; [reflexivity|]. apply closed_cons; [reflexivity|]. apply closed_cons; [reflexivity|exact B2].
+    - split.
+      + apply (Forall_app _ [_; _; _] _). split; [exact Hhead|]. constructor; [exact comma_lex|exact B1].
+      + cbn [map]. apply closed_cons; [reflexivity|]. apply closed_cons; [reflexivity|]. apply closed_cons; [reflexivity|]. apply closed_cons; [reflexivity|exact B2].
+  Qed.
+
+  Lemma lineop_lex o : lexable (punct (lineop_tok o)) /\ is_fun_ltok (ltok_of (punct (lineop_tok o))) = false.
+  Proof. destruct o; split; try punct_lex; reflexivity. Qed.
+
+  Lemma kw_names_toks (k : ttype) ls : lexable (punct k) -> is_fun_ltok (ltok_of (punct k)) = false -> text_names ls ->
+    Forall lexable (punct TPipe :: punct k :: print_names ls) /\ closed (map ltok_of (punct TPipe :: punct k :: print_names ls)).
+  Proof.
+    intros Hk Hf Hn. destruct (names_toks ls Hn) as [B1 B2]. split.
+    - constructor; [punct_lex|]. constructor; [exact Hk|exact B1].
+    - cbn [map]. apply closed_cons; [reflexivity|]. apply closed_cons; [exact Hf|exact B2].
+  Qed.
+
+  Lemma stage_toks s : simple_stage re_names s -> text_stage s ->
+    Forall lexable (print_stage anch re_names s) /\ closed (map ltok_of (print_stage anch re_names s)).
+  Proof.
+    intros Hsimple Ht. destruct s as [o v ip|ls es|ls es|src mp| |p| |p| |pr|rs ts|ls ms|ls ms|ls]; cbn [text_stage simple_stage print_stage] in *; try contradiction.
+    all: try (destruct ms; [|contradiction]). all: try (destruct es; [|contradiction]).
+    - destruct (lineop_lex o) as [O1 O2]. destruct ip.
+      + split; [fl; [exact O1|punct_lex|punct_lex|apply lexable_str; exact Ht|punct_lex]|].
+        cbn [map]. apply closed_cons; [exact O2|]. change (ltok_of (punct TIP)) with (LFun TIP (spelling TIP)).
+        change (ltok_of (punct TOpenParen)) with open_paren. apply closed_fun. apply closed_cons; [reflexivity|]. apply closed_one. reflexivity.
+      + split; [fl; [exact O1|apply lexable_str; exact Ht]|]. cbn [map]. apply closed_cons; [exact O2|]. apply closed_one. reflexivity.
+    - apply kw_names_toks; [punct_lex|reflexivity|exact Ht].
+    - apply kw_names_toks; [punct_lex|reflexivity|exact Ht].
+    - split; [fl; [punct_lex|punct_lex|apply lexable_str; exact Ht]|]. cbn [map]. apply closed_cons; [reflexivity|]. apply closed_cons; [reflexivity|]. apply closed_one. reflexivity.
+    - split; [fl; punct_lex|]. cbn [map]. apply closed_cons; [reflexivity|]. apply closed_one. reflexivity.
+    - split; [fl; [punct_lex|punct_lex|apply lexable_str; exact Ht]|]. cbn [map]. apply closed_cons; [reflexivity|]. apply closed_cons; [reflexivity|]. apply closed_one. reflexivity.
+    - split; [fl; punct_lex|]. cbn [map]. apply closed_cons; [reflexivity|]. apply closed_one. reflexivity.
+    - destruct Ht as [Hr Hts]. destruct (lf_toks rs ts Hr Hts) as [B1 B2]. split.
+      + constructor; [punct_lex|]. constructor; [punct_lex|exact B1].
+      + cbn [map]. apply closed_cons; [reflexivity|]. apply closed_cons; [reflexivity|exact B2].
+    - apply kw_names_toks; [punct_lex|reflexivity|exact Ht].
+    - apply kw_names_toks; [punct_lex|reflexivity|exact Ht].
+    - apply kw_names_toks; [punct_lex|reflexivity|exact Ht].
+  Qed.
+
+  Lemma stages_toks sts : Forall (simple_stage re_names) sts -> Forall text_stage sts ->
+    Forall lexable (print_stages anch re_names sts) /\ closed (map ltok_of (print_stages anch re_names sts)).
+  Proof.
+    induction sts as [|s t IH]; intros Hs Ht; [split; [constructor|apply closed_nil]|].
+    inversion Hs; subst. inversion Ht; subst. destruct (stage_toks s) as [A1 A2]; [assumption|assumption|]. destruct IH as [B1 B2]; [assumption|assumption|].
+    change (print_stages anch re_names (s :: t)) with (print_stage anch re_names s ++ print_stages anch re_names t). split.
+    - apply Forall_app. split; assumption.
+    - rewrite map_app. apply closed_app; assumption.
+  Qed.
+
+  Lemma chain_simple sts : forall r, chain_ok anch re_names sts r -> Forall (simple_stage re_names) sts.
+  Proof. induction sts as [|s t IH]; intros r H; [constructor|]. destruct H as [H1 [_ H3]]. constructor; [exact H1|apply (IH r); exact H3]. Qed.
+
+  (** from the text of a whole log query to its tree, through parse_tokens (logql.Parse after tokenizing) *)
+  Theorem log_query_text_lemma (sel : list matcher) (sts : list stage) (l : list (ltok * bytes)) :
+    map fst l = map ltok_of (print_selector anch re_names kw_cls sel ++ print_stages anch re_names sts) ->
+    Forall (fun x => all_space (snd x)) l ->
+    Forall text_matcher sel -> Forall text_stage sts -> chain_ok anch re_names sts [] ->
+    exists toks, lex (layout l) = LexOk toks /\ parse_tokens (map tok_of toks) = Parsed (ELog sel sts).
+  Proof.
+    intros El Hs Hm Ht Hc. destruct (selector_toks sel Hm) as [A1 A2]. destruct (stages_toks sts (chain_simple _ _ Hc) Ht) as [B1 B2].
+    assert (HL : Forall lexable (print_selector anch re_names kw_cls sel ++ print_stages anch re_names sts)) by (apply Forall_app; split; assumption).
+    assert (HF : funs_ok (map ltok_of (print_selector anch re_names kw_cls sel ++ print_stages anch re_names sts))).
+    { rewrite map_app. apply closed_funs_ok. apply closed_app; assumption. }
+    destruct (lex_tokens_lemma _ l El Hs HL HF) as [toks [H1 H2]]. exists toks. split; [exact H1|]. rewrite H2.
+    destruct (text_matchers_wf sel Hm) as [W1 W2]. apply log_query_parse_lemma; assumption.
   Qed.
 End LexParse.
